@@ -23,7 +23,10 @@ RULE = ('Generated sequences of EVENT/BINARY_EVENT packets (ids None, 0, '
         'iff bytes) iff id given and somebody responsible; arrival order when '
         'async_handlers is off. Non-trivial: two clients with the same id '
         'outstanding in one burst, or a binary event interleaved with another '
-        "transport's frames, or a tuple/bytes return value.")
+        "transport's frames, or a tuple/bytes return value, or events sent "
+        'by a client while its own disconnect is in progress (re-entrant on '
+        'the threaded server, suspended disconnect handler on the asyncio '
+        'server).')
 ASSUMPTIONS = [
     'handlers are inline harness functions that do not emit',
     'attachments are interleaved with nothing else from the same transport',
@@ -66,6 +69,10 @@ def strategy(tier):
                                't': st.integers(0, 3),
                                'ns': st.integers(0, 3)}),
         st.fixed_dictionaries({'op': st.just('cdisc'), 'c': st.integers(0, 7)}),
+        st.fixed_dictionaries({'op': st.just('window'),
+                               'c': st.integers(0, 7),
+                               'how': st.sampled_from(['cdisc', 'sdisc']),
+                               'late': st.lists(ev, min_size=1, max_size=2)}),
     )
     return st.fixed_dictionaries({
         'aio': st.booleans(), 'async_handlers': st.booleans(),
@@ -139,6 +146,27 @@ def _run(case, w):
         setattr(ns_obj, 'on_' + name, mk('class:/c:' + name))
     sio.register_namespace(ns_obj)
 
+    window = {}     # sid -> frames the client still sends while its
+    #                  disconnect is in progress
+    wgates = {}
+
+    def late_frames(sid):
+        eio_sid, frames = window.pop(sid)
+        for f in frames:
+            w.h.feed(eio_sid, f, settle=False)
+    if coro:
+        async def on_disc(sid, reason):
+            if sid in window:
+                wgates[sid] = w.h.loop.create_future()
+                await wgates[sid]
+    else:
+        def on_disc(sid, reason):
+            if sid in window and not aio:
+                late_frames(sid)        # re-entrant: "another thread"
+    for ns_ in ('/', '/x', '/none'):
+        sio.on('disconnect', on_disc, namespace=ns_)
+    ns_obj.on_disconnect = on_disc
+
     for _ in range(4):
         w.open()
     for t, n in case['init']:
@@ -162,6 +190,65 @@ def _run(case, w):
                 w.send(c['t'], wire.DISCONNECT, c['ns'])
                 w.mark_dead(ci)
             w.h.settle()
+            w.recv_all()
+            continue
+        if k == 'window':
+            lv = w.live()
+            if not lv:
+                continue
+            ci = lv[op['c'] % len(lv)]
+            c = w.clients[ci]
+            if aio and not coro:
+                continue       # a plain function handler cannot be suspended
+            frames = []
+            for e in op['late']:
+                tag += 1
+                rets[tag] = e['ret']
+                frames += wire.frames(
+                    wire.EVENT, c['ns'], e['id'],
+                    [e['name'], {'__tag': tag}] + list(e['args']))
+            window[c['sid']] = (w.t[c['t']], frames)
+            log.clear()
+            w.recv_all()
+            if aio:
+                sock = w.h.eio.sockets[w.t[c['t']]]
+                if op['how'] == 'cdisc':
+                    fr = wire.frames(wire.DISCONNECT, c['ns'])
+                    task = w.h.loop.spawn(sock.receive(w.h.eio_packet.Packet(
+                        w.h.eio_packet.MESSAGE, fr[0])))
+                else:
+                    task = w.h.loop.spawn(sio.disconnect(c['sid'],
+                                                         namespace=c['ns']))
+                w.h.loop.run_until_idle()
+                if c['sid'] in wgates:
+                    late_frames(c['sid'])
+                    w.h.settle()
+                    wgates.pop(c['sid']).set_result(None)
+                w.h.loop.run_until_idle()
+                window.pop(c['sid'], None)
+                if not task.done() or task.exception() is not None:
+                    raise Violation('disconnect-failed', repr(task))
+            else:
+                if op['how'] == 'cdisc':
+                    w.send(c['t'], wire.DISCONNECT, c['ns'])
+                else:
+                    w.do(sio.disconnect(c['sid'], namespace=c['ns']))
+                window.pop(c['sid'], None)
+            w.h.settle()
+            w.mark_dead(ci)
+            if log:
+                raise Violation('event-handled-during-disconnect',
+                                'client %s is being disconnected (%s) but '
+                                'its late events were handled: %r'
+                                % (c['sid'], op['how'], log[:2]))
+            got = w.recv(c['t'])
+            acks = [p for p in got if p['type'] in (wire.ACK,
+                                                     wire.BINARY_ACK)]
+            if acks:
+                raise Violation('event-acked-during-disconnect',
+                                repr(acks[:2]))
+            labels['nontrivial'] = True
+            labels['events_during_disconnect'] = True
             w.recv_all()
             continue
         # ---- burst of events
